@@ -8,6 +8,8 @@ package main
 import (
 	"encoding/json"
 	"fmt"
+	"os"
+	"os/exec"
 	"sort"
 	"strings"
 	"time"
@@ -444,6 +446,7 @@ func runCase(c caseT, restartHist bool, complete bool) (oe *oracleErr, outcome u
 func main() {
 	run := evid.New("C14", "exploration")
 	run.Rule("case = (start seq, buffer size B, mode, arrival history); histories = consecutive stream of n packets under <=k transformations from {move i->j |d|<=B+1, drop burst [i,j), duplicate i at j, restart at i by delta} (all positions, deduplicated) plus all permutations of 6; non-trivial = history is not the in-order stream; distinct = (start,B,mode,arrival list)")
+	run.Rule("binding part (companion binary, real Client / Server on the in-memory network): configuration in {client over UDP with server ports, client over UDP with AnyPortEnable and a SETUP answer without server_port, client over TCP, server recording over UDP, server recording over TCP}; UDP configurations receive the arrival history 100 101 101 103 102 104 107 106 105 105 108 100 109 (duplicates, displacements by 1 and 2, a late duplicate) and must deliver 100..109 once each in order with nothing reported lost; TCP configurations receive 100 101 102 104 105 and must deliver them in order with exactly one packet reported lost; 3 identical runs")
 	run.Assume("oracle reads only inputs, returned packets, returned lost counts, Stats() and the receiver report (via the verif accessor for the unexported report())")
 	run.Assume("reliable mode: only forward jumps < 2^15 (a reliable transport neither reorders nor duplicates)")
 
@@ -452,9 +455,14 @@ func main() {
 			Case     caseT `json:"case"`
 			Restart  bool  `json:"restart"`
 			Complete bool  `json:"complete"`
+			Binding  bool  `json:"binding"`
 		}
 		if err := evid.LoadReplay(run.Replay, &c); err != nil {
 			run.Fatal("replay: %v", err)
+		}
+		if c.Binding {
+			binding(run)
+			run.Finish()
 		}
 		oe, _, _ := runCase(c.Case, c.Restart, c.Complete)
 		run.Eval(1)
@@ -578,6 +586,7 @@ func main() {
 		b, _ := json.Marshal(map[string]any{"desc": "saturation run", "jumps": 600, "step": 32767})
 		run.Sample(json.RawMessage(b))
 	}
+	binding(run)
 	run.Finish()
 }
 
@@ -586,4 +595,53 @@ func b2u(b bool) uint64 {
 		return 1
 	}
 	return 0
+}
+
+// binding runs the whole-system companion (checks/c14sys): which mode a receiver runs in, and that its
+// output reaches the application unchanged, is decided outside pkg/rtpreceiver.
+func binding(run *evid.Run) {
+	bin := os.Getenv("VERIF_SYS")
+	if bin == "" {
+		run.Fatal("VERIF_SYS not set: run through ./vcheck")
+	}
+	type bres struct {
+		Config    string   `json:"configuration"`
+		Sent      []uint16 `json:"arrival_order"`
+		Delivered []uint16 `json:"delivered"`
+		Lost      uint64   `json:"lost_reported"`
+		Fail      string   `json:"fail"`
+		Msg       string   `json:"msg"`
+		Err       string   `json:"harness_error"`
+	}
+	var out struct {
+		Cases []bres `json:"cases"`
+	}
+	var first string
+	for rep := 0; rep < 3; rep++ {
+		b, err := exec.Command(bin).Output()
+		if err != nil {
+			run.Fatal("binding binary failed: %v", err)
+		}
+		if rep == 0 {
+			first = string(b)
+			if err := json.Unmarshal(b, &out); err != nil {
+				run.Fatal("binding output: %v", err)
+			}
+		} else if string(b) != first {
+			run.Flaky("binding: two runs of the same cases differ")
+			return
+		}
+	}
+	for _, c := range out.Cases {
+		run.Eval(1)
+		run.Transition(int64(len(c.Sent)))
+		run.Nontrivial("binding/" + c.Config)
+		run.Outcome(fmt.Sprint("binding/", c.Config, "/", c.Fail == ""))
+		switch {
+		case c.Err != "":
+			run.Violation("binding/"+c.Config+"/harness", map[string]any{"binding": true, "case": c, "msg": c.Err})
+		case c.Fail != "":
+			run.Violation("binding/"+c.Config+"/"+c.Fail, map[string]any{"binding": true, "case": c, "msg": c.Msg})
+		}
+	}
 }
